@@ -3,6 +3,7 @@ Every random choice comes from the random.Random instance passed in, so a (seed,
 replays exactly."""
 from __future__ import annotations
 
+import json
 import random
 
 LOOKALIKE = {"k": "K", "K": "K", "s": "ſ", "S": "ſ", "i": "İ", "I": "ı",
@@ -176,7 +177,7 @@ def wf(g, need_closed=True):
     return all(color.get(u, 0) == 2 or dfs(u) for u in graph)
 
 
-def gen_grammar(rng, flags=False, excl=False, max_rules=4, depth=3):
+def gen_grammar(rng, flags=False, excl=False, max_rules=4, depth=3, alias=False):
     for _ in range(200):
         n = rng.randint(1, max_rules)
         style = rng.choice(NAME_STYLES)
@@ -194,6 +195,12 @@ def gen_grammar(rng, flags=False, excl=False, max_rules=4, depth=3):
             for k in range(n):
                 if rng.random() < 0.35:
                     rules[k]["excl"] = rng.choice([x for x in names if x != names[k]])
+        if alias and rng.random() < 0.35:
+            # a rule that SHARES the definition object of another rule under a name of its own (what the decorators'
+            # imported_rules do: cls(local_name, source.definition)); the tree must carry the name that was asked for
+            src = rng.choice(rules)
+            rules.append({"name": "Al" + str(len(rules)), "def": json.loads(json.dumps(src["def"])), "excl": None,
+                          "alias_of": src["name"]})
         g = {"rules": rules, "alpha": alpha}
         if wf(g):
             return g
